@@ -361,9 +361,13 @@ def gen_enc(chk, program, rule='GEN-ENC', mask_rule='ENC-MASK', want=('table', '
             nnon += 1
             if 'table' in want:
                 # must raise before producing bytes on every path
-                chk.check(t.ret is None and bool(t.raises), rule, f"{fname}::not-encodable", file=PG, line=line, func=fname,
-                          expected='raises before producing bytes (a field type / position is not encodable)',
-                          found='returns bytes' if t.ret is not None else 'no raise', nontrivial=False)
+                if t.ret is not None:
+                    # the library encodes a definition with a field type this analysis holds no writer reference for (support added later): whether
+                    # those bytes are right is not decided here -- no verdict, not an alarm
+                    chk.unknown(rule, f"{fname}::not-encodable", 'the encoder returns bytes for a definition with a field type (or position) for which this analysis has no reference writer', PG, line)
+                else:
+                    chk.check(bool(t.raises), rule, f"{fname}::not-encodable", file=PG, line=line, func=fname,
+                              expected='raises before producing bytes (a field type / position is not encodable)', found='no raise', nontrivial=False)
             continue
         nenc += 1
         t, rows, r = encoder_rows(program, d)
